@@ -814,6 +814,11 @@ PANIC_CALL = re.compile(
 PANIC_EXACT = re.compile(r'(::unwrap$|::expect$|core::panicking::|Index.*>::index(_mut)?$|::copy_from_slice$|Vec::<.*>::remove$)')
 
 
+# std time arithmetic through the operator traits panics on overflow ("overflow when adding duration to instant")
+TIME_ARITH = re.compile(r'<(std|core|tokio)::time::(SystemTime|Instant|Duration) as (std|core)::ops::(Add|Sub|Mul|AddAssign|SubAssign|MulAssign)(<.*>)?>::\w+$'
+                        r'|time::Duration::from_secs_f(32|64)$|time::Duration::(mul_f32|mul_f64|div_f32|div_f64)$')
+
+
 def panic_sites(body, include_overflow=False, include_expansion=True):
     """potential panic sites of a body: [(kind, bb, line, text, expr-of-interest)]"""
     out = []
@@ -828,6 +833,8 @@ def panic_sites(body, include_overflow=False, include_expansion=True):
         elif re.search(r'<impl \[T\]>::(copy_from_slice|clone_from_slice|split_at|split_at_mut)$|Vec::<.*>::(remove|swap_remove|split_off)$|'
                        r'String::(remove|split_off|insert)$|str>::split_at$|<impl str>::split_at$', name):
             out.append(('slice-op', cs.bb, cs.ln, name, cs))
+        elif TIME_ARITH.search(name):
+            out.append(('time-arith', cs.bb, cs.ln, name, cs))
     for bi, t in body.terms():
         if t['k'] == 'assert':
             m = t['m']
